@@ -49,8 +49,8 @@ let model_string (s : st) : string =
     | Some e -> base ^ Printf.sprintf "[%d,%d]" (int_of_n e.cs_wire) (int_of_z e.cs_stale)
     | None -> base in
   let ns = List.sort compare (List.map node_str s.nodes) in
-  Printf.sprintf "npit=%d ncs=%d tok=%d heap=%d csmap=%d lruq=%s locs=%d dnl=%d dnlq=%d broken=- nodes=%s"
-    (int_of_z s.npit) (int_of_z s.ncs) (List.length s.tokmap) (List.length s.heap) (List.length s.csmap)
+  Printf.sprintf "npit=%d ncs=%d apit=%d acs=%d tpit=%d tcs=%d tok=%d heap=%d csmap=%d lruq=%s locs=%d dnl=%d dnlq=%d broken=- nodes=%s"
+    (int_of_z s.npit) (int_of_z s.ncs) (int_of_z s.npit) (int_of_z s.ncs) (int_of_z s.npit) (int_of_z s.ncs) (List.length s.tokmap) (List.length s.heap) (List.length s.csmap)
     (Printf.sprintf "%d:%s" (List.length s.lruq) (String.concat ";" (List.map string_of_name s.lruq)))
     (List.length s.locs) (List.length s.dnl) (List.length s.dnlq) (String.concat "|" ns)
 
@@ -132,6 +132,8 @@ let () =
   let spec = ref (c_init Z0 N0) in
   let admit = ref true in
   let diverged = ref false in
+  let loop_mode = ref false in
+  let dnl_next = ref 0 in
   let dnl_ambiguous = ref false in
   let last_model_s = ref "" and last_impl_s = ref "" in
   let quiescent = ref false in
@@ -140,6 +142,8 @@ let () =
   let deadline : (string, int) Hashtbl.t = Hashtbl.create 64 in
   let stats : (string, int) Hashtbl.t = Hashtbl.create 32 in
   let stat k = Hashtbl.replace stats k (1 + (try Hashtbl.find stats k with Not_found -> 0)) in
+  let last_int_key : (name * bool * bool) option ref = ref None in
+  let last_found : csent option ref = ref None in
   let pending_find : (name * bool * bool * csent list) option ref = ref None in
   let pending_int : (int * name * bool * bool * int * csent list * int list) option ref = ref None in
   let contains s sub = (try ignore (Str.search_forward (Str.regexp_string sub) s 0); true with Not_found -> false) in
@@ -172,6 +176,12 @@ let () =
       spec := { !spec with c_list = List.filter (fun e -> List.exists (fun x -> x.cs_name = e.cs_name) ic) (!spec).c_list }
     end;
     if fld d "broken" <> "-" then oracle "C08" "broken-structure" (fld d "broken");
+    (* the sizes production reads (PitSize/CsSize, Thread.GetNumPitEntries/GetNumCsEntries) are the true numbers of entries *)
+    (let true_pit = List.fold_left (fun a nd -> a + List.length nd.i_entries) 0 d.inodes
+     and true_cs = List.length (List.filter (fun nd -> nd.i_cs <> None) d.inodes) in
+     List.iter (fun (k, v) -> if fldi d k <> v then
+                   oracle "C08" ("reported-size:" ^ k) (Printf.sprintf "after=[%s] %s=%s but the table holds %d" !last_op k (fld d k) v))
+       [("apit", true_pit); ("tpit", true_pit); ("acs", true_cs); ("tcs", true_cs)]);
     let cd = coq_dump (nowi ()) d in
     List.iter (fun c -> oracle "C08" (Printf.sprintf "always:%d" (int_of_n c))
                   (Printf.sprintf "after=[%s] npit=%s ncs=%s tok=%s heap=%s csmap=%s lruq=%s locs=%s dnl=%s dnlq=%s" !last_op
@@ -181,10 +191,10 @@ let () =
        elapsed the next Update() must have removed the entry *)
     let present = List.concat_map (fun nd -> List.map (fun e -> string_of_name nd.i_path ^ "|" ^ e.e_flags) nd.i_entries) d.inodes in
     Hashtbl.filter_map_inplace (fun k v -> if List.mem k present then Some v else None) deadline;
-    if !last_op = "tick" then
+    if !last_op = "tick" || !loop_mode then
       List.iter (fun k -> match Hashtbl.find_opt deadline k with
-          | Some dl when dl <= nowi () ->
-            oracle "C08" "outlived-lifetime" (Printf.sprintf "entry %s still present after Update() at %d although the latest lifetime of the Interests received for it ended at %d" k (nowi ()) dl);
+          | Some dl when (if !loop_mode then dl + 100000000 <= nowi () && String.length !last_op >= 5 && String.sub !last_op 0 5 = "sleep" else dl <= nowi ()) ->
+            oracle "C08" "outlived-lifetime" (Printf.sprintf "entry %s still present %s at %d although the latest lifetime of the Interests received for it ended at %d" k (if !loop_mode then "after the forwarding thread's own loop ran (more than a reaper period later)" else "after Update()") (nowi ()) dl);
             Hashtbl.remove deadline k
           | _ -> ()) present;
     if !last_op = "tick" then
@@ -210,7 +220,8 @@ let () =
           let t0 = int_of_string t0 in
           model := init (z_of_int t0) (n_of_int (int_of_string c)) (sv = "1") (ad = "1") (z_of_int (int_of_string life));
           spec := c_init (z_of_int t0) (n_of_int (int_of_string c));
-          admit := (ad = "1"); last_tick := t0; last_op := "init"
+          admit := (ad = "1"); last_tick := t0; last_op := "init"; loop_mode := false;
+          dnl_next := t0 + int_of_z gen_dnl_tick_ms * 1000000
       | ["op"; "adv"; d] ->
           incr nops;
           let d = int_of_string d in
@@ -223,6 +234,27 @@ let () =
             last_tick := nowi ()
           end;
           last_op := "adv"
+      | ["op"; "sleep"; d] ->
+          (* the real Thread.Run loop served its timers itself; the model's loop does the same: the PIT update signal at timer_at,
+             the DNL ticker every gen_dnl_tick_ms since the thread was created (the two commute when due at the same instant) *)
+          incr nops; loop_mode := true;
+          let target = nowi () + int_of_string d in
+          let period = int_of_z gen_dnl_tick_ms * 1000000 in
+          let continue = ref true in
+          while !continue do
+            let tn = min (int_of_z (!model).timer_at) !dnl_next in
+            if tn <= target then begin
+              let dd = tn - nowi () in
+              if dd > 0 then (ignore (apply (OAdv (n_of_int dd))); spec := c_adv !spec (n_of_int dd));
+              if int_of_z (!model).timer_at = nowi () then (ignore (apply OTick); last_tick := nowi (); stat "loop_tick");
+              if !dnl_next = nowi () then (ignore (apply ODnl); dnl_next := !dnl_next + period; stat "loop_dnl")
+            end else begin
+              let dd = target - nowi () in
+              if dd > 0 then (ignore (apply (OAdv (n_of_int dd))); spec := c_adv !spec (n_of_int dd));
+              continue := false
+            end
+          done;
+          last_op := "sleep " ^ d
       | ["op"; "cap"; c] ->
           incr nops;
           ignore (apply (OCap (z_of_int (int_of_string c)))); spec := c_setcap !spec (z_of_int (int_of_string c)); last_op := "cap " ^ c
@@ -262,6 +294,20 @@ let () =
           let want_i = (if N.ltb want (n_of_int 1000000000) then int_of_n want else -1) in
           if (want_i >= 0 && got <> want_i) || (want_i < 0 && got < 1000000000) then
             oracle "C07" "mgmt-capacity-not-applied" (Printf.sprintf "after [%s] through cs/config the capacity in force is %d" !last_op got)
+      | ["obs"; "exactpit"; b] ->
+          (* FindInterestExactMatchEnc right after the Interest was processed: an entry (name, CanBePrefix, MustBeFresh) exists iff the model has one *)
+          (match !last_int_key with
+           | Some (nn, c, m) ->
+             let has = List.exists (fun nd -> nd.n_path = nn && List.exists (fun e -> e.p_cbp = c && e.p_mbf = m) nd.n_pit) (!model).nodes in
+             if has <> (b = "1") then diverge (Printf.sprintf "FindInterestExactMatchEnc %s: implementation %s, model %b" (string_of_name nn) b has)
+           | None -> ())
+      | "obs" :: "apibad" :: rest ->
+          oracle "C07" "accessor-mismatch" (String.concat " " rest); oracle "C08" "accessor-mismatch" (String.concat " " rest)
+      | ["obs"; "stale"; t] ->
+          (match !last_found with
+           | Some e -> if int_of_z e.cs_stale <> int_of_string t then
+               oracle "C07" "accessor-mismatch" (Printf.sprintf "CsEntry.StaleTime() = %s but the entry turns stale at %d" t (int_of_z e.cs_stale))
+           | None -> ())
       | "obs" :: "find" :: rest ->
           (match !pending_find with
            | None -> Printf.printf "BADLINE %d obs find without op\n" !lineno
@@ -277,6 +323,7 @@ let () =
               | Some (m, w) ->
                 if not (List.exists (fun e -> e.cs_name = m && e.cs_wire = w) cands) then
                   diverge (Printf.sprintf "find %s: implementation returned %s:%d, model admits {%s}" (string_of_name nn) (string_of_name m) (int_of_n w) (cs cands)));
+             last_found := (match r with Some (m, _) -> List.find_opt (fun e -> e.cs_name = m) (!spec).c_list | None -> None);
              let j = int_of_n (c_judge !spec nn cbp mbf r) in
              if j <> 0 then
                oracle "C07" (Printf.sprintf "lookup:%d" j)
@@ -289,6 +336,7 @@ let () =
           (match apply (OInterest (n_of_int (int_of_string face), nn, cbp = "1", mbf = "1", n_of_int (int_of_string nonce),
                                    ms_ns (opt_n life), List.map n_of_int sl)) with
            | RInt (k, c) -> pending_int := Some (int_of_string face, nn, cbp = "1", mbf = "1", int_of_n k, c, sl);
+               last_int_key := Some (nn, cbp = "1", mbf = "1");
                stat (match int_of_n k with 1 -> "interest_dead_nonce" | 2 -> "interest_duplicate_nonce" | 3 -> "interest_cache_hit"
                                          | _ -> if sl = [] then "interest_not_forwarded" else if List.length sl > 1 then "interest_forwarded_multi" else "interest_forwarded")
            | _ -> ());
